@@ -45,8 +45,6 @@ pub trait VecAggValidExt<T: IsNone>: Vec1View<T> {
         // fast path for special cases
         if n == 0 {
             return Ok(f64::NAN);
-        } else if n == 1 {
-            return Ok(slc[0].clone().cast());
         }
         let len_1 = (n - 1).f64();
         let (q, i, j, vi, vj) = if q <= 0.5 {
